@@ -34,7 +34,6 @@ def wf_violation():
     if len(s.callstack.idxstack): bad.append("idxstack not empty")
     if ex.is_executing: bad.append("is_executing left True")
     if len(s.refstack): bad.append("refstack not empty")
-    if len(ex.rolledback) and False: bad.append("rolledback")
     return bad
 def attr_refs(cells, key):
     """names of the references recorded as read (by attribute path) by this value"""
@@ -627,6 +626,7 @@ def run_case(res, c):
             if R.aborted:
                 return
         R.final_probe(order, c["qstyle"])
+        res.sample({"model": [spec.render(j)[0] for j in range(n)], "history": [repr(h) for h in R.hist[:12]]}, cap=3)
     finally:
         R.close()
 
